@@ -139,6 +139,79 @@ example :
 end Anemo
 
 namespace Anemo
+theorem lookupAff_all_never (known : List (Nat × Affinity)) (h : ∀ e ∈ known, e.2 = .never) (p : Nat) :
+    lookupAff known p = none ∨ lookupAff known p = some .never := by
+  induction known with
+  | nil => left; rfl
+  | cons e t ih =>
+    obtain ⟨q, a⟩ := e
+    have ha : a = .never := h (q, a) (by simp)
+    have iht := ih (fun e he => h e (by simp [he]))
+    simp only [lookupAff]
+    rcases iht with h1 | h1
+    · rw [h1]; by_cases hq : q = p <;> simp [hq, ha]
+    · rw [h1]; right; rfl
+
+/-- operations that involve no exempt peer: arrivals, disconnects, `Never` entries, removals -/
+def LOp.stranger : LOp → Bool
+  | .arrive _ => true
+  | .disconnect _ => true
+  | .setKnown _ a => a == .never
+  | .removeKnown _ => true
+  | .dialOut _ => false
+
+theorem insertSet_length_le (l : List Nat) (p : Nat) : (insertSet l p).length ≤ l.length + 1 := by
+  unfold insertSet; split <;> simp
+
+def Listener.Strangers (l : Nat) (s : Listener) : Prop :=
+  s.limit = some l ∧ (∀ e ∈ s.known, e.2 = .never) ∧ s.connected.length ≤ l
+
+theorem stranger_step (l : Nat) (s : Listener) (op : LOp) (h : s.Strangers l) (hop : op.stranger = true) :
+    (s.step op).1.Strangers l := by
+  obtain ⟨hl, hk, hlen⟩ := h
+  cases op with
+  | arrive p =>
+    simp only [Listener.step]
+    split
+    · rename_i ha
+      refine ⟨hl, hk, ?_⟩
+      have hlt : s.connected.length < l := by
+        rcases lookupAff_all_never s.known hk p with h1 | h1 <;> simp [h1, hl, admits] at ha
+        exact ha
+      have := insertSet_length_le s.connected p
+      simp only; omega
+    · exact ⟨hl, hk, hlen⟩
+  | dialOut p => simp [LOp.stranger] at hop
+  | disconnect p =>
+    exact ⟨hl, hk, Nat.le_trans (List.length_filter_le _ _) hlen⟩
+  | setKnown p a =>
+    have ha : a = .never := by simpa [LOp.stranger] using hop
+    refine ⟨hl, ?_, hlen⟩
+    intro e he
+    simp only [Listener.step, List.mem_append, List.mem_singleton] at he
+    rcases he with he | he
+    · exact hk e he
+    · rw [he]; exact ha
+  | removeKnown p =>
+    refine ⟨hl, ?_, hlen⟩
+    intro e he
+    simp only [Listener.step] at he
+    exact hk e (List.mem_filter.mp he).1
+
+/-- **The limit holds over every history**: while nobody is exempt (no High / Allowed entry, no
+outbound dial), however arrivals, disconnects and table edits interleave, the number of established
+connections never exceeds the limit. -/
+theorem C10_limit_invariant (l : Nat) (ops : List LOp) (s : Listener) (h : s.Strangers l)
+    (hops : ∀ op ∈ ops, op.stranger = true) :
+    (ops.foldl (fun s op => (s.step op).1) s).connected.length ≤ l := by
+  induction ops generalizing s with
+  | nil => exact h.2.2
+  | cons op t ih =>
+    simp only [List.foldl_cons]
+    exact ih _ (stranger_step l s op h (hops op (by simp))) (fun o ho => hops o (by simp [ho]))
+
+example : ({ limit := some 2 } : Listener).Strangers 2 := ⟨rfl, by simp, by simp⟩
+
 /-- **Admission is decided where the model says, and nowhere else** (word for word, checked on this run): `handle_incoming_task` completes the handshake, applies the translated decision (`admitGen`) to the established-connection count of the active set, and only then runs the acknowledgement; `handle_connecting_result` / `add_peer` register without a second decision. -/
 theorem C10_admission_path_is_pinned : Gen.dialingShapeChecked = true := rfl
 end Anemo
